@@ -62,6 +62,20 @@ inductive Step (α : Type) where
 section
 variable [Add R] [Sub R] [Mul R] [Div R] [Neg R] [LT R] [DecidableLT R] [LE R] [DecidableLE R] [BEq R]
 
+/-- the abscissa of the parabola's stationary point (l.1682-1689):
+```
+tmp1 = (xb - xa)*(fb-fc); tmp2 = (xb - xc)*(fb-fa); val = tmp2-tmp1
+if abs(val) < _verysmall_num: denom = 2.0*_verysmall_num
+else: denom = 2.0*val
+w = xb - ((xb-xc)*tmp2-(xb-xa)*tmp1)/denom
+``` -/
+def parabolicW (k : K R) (s : Bk R) : R :=
+  let tmp1 := (s.xb - s.xa) * (s.fb - s.fc)
+  let tmp2 := (s.xb - s.xc) * (s.fb - s.fa)
+  let val := tmp2 - tmp1
+  let denom := if k.abs val < k.verysmall then k.two * k.verysmall else k.two * val
+  s.xb - ((s.xb - s.xc) * tmp2 - (s.xb - s.xa) * tmp1) / denom
+
 /-- one pass of `while (fc < fb):` after the `iter > maxiter` test (l.1681-1724):
 ```
 tmp1 = (xb - xa)*(fb-fc); tmp2 = (xb - xc)*(fb-fa); val = tmp2-tmp1
@@ -82,11 +96,7 @@ else: w = xc + _gold*(xc-xb); fw = func(w)
 xa=xb; xb=xc; xc=w; fa=fb; fb=fc; fc=fw
 ``` -/
 def bracketBody (k : K R) (f : R → R) (s : Bk R) : Step (Bk R) :=
-  let tmp1 := (s.xb - s.xa) * (s.fb - s.fc)
-  let tmp2 := (s.xb - s.xc) * (s.fb - s.fa)
-  let val := tmp2 - tmp1
-  let denom := if k.abs val < k.verysmall then k.two * k.verysmall else k.two * val
-  let w := s.xb - ((s.xb - s.xc) * tmp2 - (s.xb - s.xa) * tmp1) / denom
+  let w := parabolicW k s
   let wlim := s.xb + k.growLimit * (s.xc - s.xb)
   let wg := s.xc + k.gold * (s.xc - s.xb)
   if k.zero < (w - s.xc) * (s.xb - w) then
